@@ -70,6 +70,11 @@ def op? : Val → Option (Op Float)
   | .list [.sym "rand", mn, mx] => do pure (.setRandomInitialPoints (← optVec? mn) (← optVec? mx))
   | _ => none
 
+/-- a `Set*` call or `(boot c)`: the prelude of `Step(cost c)` -/
+def act? : Val → Option (Act Float)
+  | .list [.sym "boot", c] => do pure (.boot (← c.asNat?))
+  | v => (op? v).map .set
+
 def parseCfg (args : List Val) : Option (Cfg Float) := do
   let kind ← (kw? args "kind").bind kind?
   let nDim ← (kw? args "ndim").bind Val.asNat?
@@ -77,6 +82,8 @@ def parseCfg (args : List Val) : Option (Cfg Float) := do
   let dmax ← (kw? args "dmax").bind Val.asFloats?
   let best ← (kw? args "best").bind Val.asNat?
   let fcalls ← (kw? args "fcalls").bind Val.asNat?
+  let bestIdx ← (kw? args "bidx").bind Val.asNat?
+  let ndec ← (kw? args "ndec").bind Val.asNat?
   let reducer ← match kw? args "red" with
     | some (.sym "none") => some none
     | some (.list [i, al]) => do pure (some ((← i.asNat?), (← al.asBool?)))
@@ -107,7 +114,7 @@ def parseCfg (args : List Val) : Option (Cfg Float) := do
   let sigint ← (kw? args "sig").bind Val.asBool?
   let population ← (kw? args "pop").bind Val.asList? |>.bind (·.mapM Val.asFloats?)
   let rngPos ← (kw? args "rng").bind Val.asNat?
-  pure { kind, nDim, dmin, dmax, best, fcalls, reducer, penalty, constraints,
+  pure { kind, nDim, dmin, dmax, best, fcalls, bestIdx, ndec, reducer, penalty, constraints,
          term := { termination, collapse }, stepmon, evalmon, hist := { ehist, shist },
          ranges := { useStrict, tight, clip, smin, smax, bnd }, limits := { maxiter, maxfun },
          cost := { raw, decorated }, live, save := { saveiter, state }, mapc := { map, mapcfg }, sigint,
@@ -139,42 +146,88 @@ def showCfg (c : Cfg Float) : String :=
   s!"(smin {pFs c.ranges.smin}) (smax {pFs c.ranges.smax}) (bnd {pBnd c.ranges.bnd}) (mi {pLim c.limits.maxiter}) " ++
   s!"(mf {pLim c.limits.maxfun}) (cost {pON c.cost.raw}) (dec {pB c.cost.decorated}) (live {pB c.live}) " ++
   s!"(si {pON c.save.saveiter}) (st {pON c.save.state}) (map {c.mapc.map}) (mcfg {c.mapc.mapcfg}) (sig {pB c.sigint}) " ++
-  s!"(pop {pFss c.pop.population}) (rng {c.pop.rngPos})"
+  s!"(pop {pFss c.pop.population}) (rng {c.pop.rngPos}) (ndec {c.ndec})"
 
-/-- all pairs `i < j` of calls that the footprint table does NOT declare independent -/
-def depPairs (pl : Bool) (k : Kind) (ops : List (Op Float)) : List (Nat × Nat) :=
-  let idx := (List.range ops.length).zip ops
+/-- all pairs `i < j` of calls that the footprint table does NOT declare independent (`boot` depends on everything) -/
+def depPairs (pl : Bool) (k : Kind) (acts : List (Act Float)) : List (Nat × Nat) :=
+  let idx := (List.range acts.length).zip acts
   idx.flatMap fun (i, a) => idx.filterMap fun (j, b) =>
-    if i < j && !(Independent pl k a b) then some (i, j) else none
+    match a, b with
+    | .set a, .set b => if i < j && !(Independent pl k a b) then some (i, j) else none
+    | _, _ => if i < j then some (i, j) else none
+
+/-- positions `i` such that calls `i` and `i+1` are both `Set*` calls the footprint table declares independent IN THE
+    STATE THE FIRST OF THEM IS MADE IN (a `boot` makes the solver live again: the "live Powell" flag is not monotone
+    any more) - the hypothesis of `setters_commute` at that state -/
+def adjIndep (u : Nat → Float) : Cfg Float → Nat → List (Act Float) → List Nat
+  | s, i, .set a :: .set b :: rest =>
+    (if Independent s.pl s.kind a b then [i] else []) ++ adjIndep u (apply u s a).1 (i + 1) (.set b :: rest)
+  | s, i, a :: rest => adjIndep u (act u s a).1 (i + 1) rest
+  | _, _, [] => []
 
 def handleCfg (args : List Val) : String := Id.run do
   let some c := parseCfg args | return "bad-op"
-  let some ops := (kw? args "ops").bind Val.asList? |>.bind (·.mapM op?) | return "bad-op"
+  let some acts := (kw? args "ops").bind Val.asList? |>.bind (·.mapM act?) | return "bad-op"
   let some us := (kw? args "u").bind Val.asFloats? | return "bad-op"
   let ua := us.toArray
   let u : Nat → Float := fun n => ua.getD n (0.0 / 0.0)
-  let fin := cfgAfter u c ops
-  let raised := raisedAfter u c ops
-  let deps := depPairs c.pl c.kind ops
+  let fin := actsAfter u c acts
+  let raised := raisedActs u c acts
+  let sets := acts.filterMap fun a => match a with | .set op => some op | .boot _ => none
+  let pure_ := sets.length == acts.length
+  let deps := depPairs c.pl c.kind acts
   let depS := "(" ++ " ".intercalate (deps.map fun (i, j) => s!"({i} {j})") ++ ")"
-  return s!"ok cfg=({showCfg fin}) raised={pL (raised.map pB)} dep={depS} pw={pB (PairwiseIndependent c.pl c.kind ops)} " ++
-    s!"consumed={rngConsumed u c ops} pl={pB c.pl}"
+  let adj := adjIndep u c 0 acts
+  -- coverage: random numbers drawn and decorations performed by the `boot` acts
+  let mut t := c
+  let mut bootDraws := 0
+  let mut bootDecs := 0
+  for a in acts do
+    let t' := (act u t a).1
+    match a with
+    | .boot _ =>
+      bootDraws := bootDraws + (t'.pop.rngPos - t.pop.rngPos)
+      bootDecs := bootDecs + (t'.ndec - t.ndec)
+    | _ => pure ()
+    t := t'
+  return s!"ok cfg=({showCfg fin}) raised={pL (raised.map pB)} dep={depS} adj={pNs adj} " ++
+    s!"pw={pB (pure_ && PairwiseIndependent c.pl c.kind sets)} " ++
+    s!"consumed={fin.pop.rngPos - c.pop.rngPos} pl={pB c.pl} bootdraws={bootDraws} bootdecs={bootDecs}"
 
 /-! ### `de2map (cost ..) (pen ..) (cons ..) (box ..) (pop ..) (trials ((..) ..)) (orders ((..) ..))`:
     generation 0 evaluates the members themselves; `orders` has one evaluation order per generation -/
+
+/-- what a "tidying" objective does to the vector it is handed, in place (harness/c07.py `dirty_apply`) -/
+def dirtyOf : String → V → V
+  | "abs" => fun x => x.map Float.abs                                   -- `x[i] = abs(x[i])`
+  | "sort" => fun x => x.mergeSort (fun a b => decide (a ≤ b))          -- `x[:] = sorted(x)` (both stable)
+  | "clamp" => fun x => x.map fun v => if v < -1.0 then -1.0 else if v > 1.0 then 1.0 else v
+  | _ => id
 
 def handleDE2 (args : List Val) : String := Id.run do
   let some su := SolverDrv.parseSetup args | return "bad-op"
   let some pop := (kw? args "pop").bind Val.asList? |>.bind (·.mapM Val.asFloats?) | return "bad-op"
   let some trialss := (kw? args "trials").bind Val.asList? |>.bind (·.mapM fun g => g.asList?.bind (·.mapM Val.asFloats?)) | return "bad-op"
   let some orders := (kw? args "orders").bind Val.asList? |>.bind (·.mapM Val.asNats?) | return "bad-op"
+  -- `(dirty <cost> <penalty>)`: in-place modification made by the user's cost / penalty; `(shared (b ..))`: per map
+  -- call, whether the workers received the trial vectors themselves (in-process map) or copies
+  let (dc, dp) := match kw? args "dirty" with
+    | some (.list [.sym a, .sym b]) => (a, b)
+    | _ => ("none", "none")
+  let shared := ((kw? args "shared").bind Val.asList? |>.bind (·.mapM Val.asBool?)).getD []
   let o := su.obj
+  let cost : Proc V Float := fun y => (o.raw (dirtyOf dc y), dirtyOf dc y)
+  let pen : Proc V Float := fun z => (o.pen (dirtyOf dp z), dirtyOf dp z)
+  let o' := objOfProcs o.K o.inBox o.useRange o.top o.add cost pen
   let pop := match su.box with | some b => pop.map b.clip0 | none => pop
   let x0 := pop.headD []
-  let mut s : DE V Float := DE.init o pop x0
+  let mut s : DE V Float := DE.init o' pop x0
   let mut outs : Array String := #[]
+  let mut g := 0
   for (ts, π) in ([pop] ++ trialss).zip orders do
-    s := step2With o π ts s
+    let sh := shared.getD g true
+    s := step2Proc o.K o.inBox o.useRange o.top o.add cost pen (fun _ => sh) π ts s
+    g := g + 1
     outs := outs.push (SolverDrv.showDE s)
   return s!"ok steps=({" ".intercalate outs.toList}) log={SolverDrv.pPairs s.log} hist={pFs (s.stepLog.map Prod.snd)}"
 
